@@ -368,7 +368,13 @@ def run_export(case, rec):
                 else:
                     out = argument = os.path.join(tmp, f'{n}-{filename}')
                     cwd = None
-                before = set(os.listdir(tmp)) | {os.path.join('sub', x) for x in os.listdir(os.path.join(tmp, 'sub'))}
+                if n % 5 == 0 and fmt_name != 'shapefile':
+                    # the output path already holds something else, newer than the input
+                    with open(out, 'w') as stale:
+                        stale.write('left over from another run')
+                    os.utime(out, (os.path.getmtime(source) + 3600, os.path.getmtime(source) + 3600))
+                    rec.nontrivial(('pre-existing', filename))
+                before = (set(os.listdir(tmp)) | {os.path.join('sub', x) for x in os.listdir(os.path.join(tmp, 'sub'))}) - {os.path.relpath(out, tmp)}
                 here = os.getcwd()
                 try:
                     if cwd:
@@ -440,7 +446,7 @@ def run_extract(case, rec):
                 n += 1
                 lon_col, lat_col, dim = ('x', 'y', 'station') if custom else ('lon', 'lat', 'point')
                 frame = pandas.DataFrame({lon_col: [p.x for p in points], lat_col: [p.y for p in points],
-                                          'name': [f'site-{combo[k]}' if identical_rows else f'row{k}' for k in range(len(points))]})
+                                          'name': [f'site-{combo[k]}' if identical_rows else f'Reef #{k} row' for k in range(len(points))]})
                 # a blank symbol is a completely empty line of the table (",,")
                 for k, sym in enumerate(combo):
                     if sym == 'blank':
